@@ -206,6 +206,60 @@ def build_extraction(name, timeout=900):
 CURRENT = None
 
 
+class ImplHang(BaseException):
+    """raised in the main thread by the watchdog below when ONE call from the harness into nfcpy has not returned for
+    NV_HANG_S seconds (default 150): the implementation loops or blocks for ever on the input at hand.  BaseException so
+    that the `except Exception` clauses of nfcpy and of the harnesses do not swallow it; harness/runner.py turns it
+    into a reported violation whose replay names the call, its arguments and the spinning stack."""
+    def __init__(self, secs, entry, args, stack):
+        BaseException.__init__(self, 'implementation call %s has not returned for %d s' % (entry, secs))
+        self.secs, self.entry, self.args_repr, self.stack = secs, entry, args, stack
+
+
+def install_hang_watchdog():
+    """a check must give a verdict even when the implementation hangs: every 10 s a SIGALRM handler looks at the main
+    thread's stack; the outermost frame inside <repo>/src/nfc is the call the harness made; if that same frame object
+    (a reference is kept, so identity is exact) is still there after NV_HANG_S seconds, ImplHang is raised.  Waiting
+    for builds, model runners or worker threads (no nfc frame on the main stack) never triggers it."""
+    import signal
+    import threading
+    import traceback
+    if threading.current_thread() is not threading.main_thread() or not hasattr(signal, 'setitimer'):
+        return
+    nfcroot = os.path.join(os.path.realpath(REPO), 'src', 'nfc') + os.sep
+    tick = 10
+    limit = int(os.environ.get('NV_HANG_S', '150'))
+    st = {'frame': None, 'n': 0}
+
+    def on_alarm(signum, frame):
+        entry, f = None, frame
+        while f is not None:
+            if os.path.realpath(f.f_code.co_filename).startswith(nfcroot):
+                entry = f
+            f = f.f_back
+        if entry is None:
+            st['frame'], st['n'] = None, 0
+            return
+        if entry is st['frame']:
+            st['n'] += 1
+        else:
+            st['frame'], st['n'] = entry, 0
+        if st['n'] * tick >= limit:
+            name = '%s:%s' % (os.path.relpath(entry.f_code.co_filename, os.path.realpath(REPO)), entry.f_code.co_name)
+            args = {}
+            for k, v in list(entry.f_locals.items())[:12]:
+                try:
+                    args[k] = (bytes(v).hex() if isinstance(v, (bytes, bytearray, memoryview)) else repr(v))[:600]
+                except Exception:   # noqa
+                    args[k] = '<unprintable>'
+            stack = [ln.strip()[:300] for ln in traceback.format_stack(frame)[-14:]]
+            st['frame'], st['n'] = None, 0
+            raise ImplHang(limit, name, args, stack)
+
+    signal.signal(signal.SIGALRM, on_alarm)
+    signal.setitimer(signal.ITIMER_REAL, tick, tick)
+
+
 def hx(b):
     return bytes(b).hex()
 
@@ -219,6 +273,7 @@ class Check:
         a = ap.parse_args(argv)
         global CURRENT
         CURRENT = self
+        install_hang_watchdog()
         self.pid = pid
         self.tier = a.tier if a.tier in ('quick', 'thorough') else 'quick'
         self.replay = a.replay
